@@ -57,7 +57,7 @@ QUICK_SHAPES = ["pair", "pair3", "unarypair", "parallel", "path3", "fork3", "iso
 THOROUGH_SHAPES = QUICK_SHAPES + ["triangle", "tern", "ternpair", "path3d3", "twocomp"]
 
 
-def model_part(v, tier, invariants, clauses, props, seed_off=0, n_quick=1, shapes=None, stop=None):
+def model_part(v, tier, invariants, clauses, props, seed_off=0, n_quick=1, shapes=None, stop=None, light=False):
     """Mgm.tla on TLC-drawn instances: every schedule and draw checked by TLC, every explored transition replayed on the real
     MgmComputation objects; break_mode 'random' is run against the same (lexical) model"""
     from . import algomodel as AM, algotrace as AT
@@ -89,6 +89,8 @@ def model_part(v, tier, invariants, clauses, props, seed_off=0, n_quick=1, shape
             inst["init"] = {}
         inst["_key"] = {"ties": True}
     rnd_insts = [dict(i, break_mode="random", _key={"break_mode": "random"}) for i in ties + [x for x in insts if x["shape"] in ("path3", "fork3")][:1 if quick else 8]]
+    if light:
+        insts, ties, rnd_insts = insts[:5], ties[:1], []
     tot = AM.run_model(v, MgmBinding("lexic"), insts + ties + rnd_insts, consts, invariants + STRUCT, clauses, props, widen=widen,
                        max_paths=800 if quick else None)
     v.cov["mgm_model"] = dict(tot, stop_cycle=consts["StopCycle"], invariants=invariants + STRUCT)
